@@ -5,7 +5,7 @@ STATIC = {
         "guard": "verif",
         "enable": "go build -tags verif (harness module /verif/harness with replace grol.io/grol => /repo)",
         "baseline_off_cmd": "cd /repo && GOFLAGS=-mod=mod GOPROXY=off go test -json -vet=off -count=1 -timeout 25m ./...",
-        "source_commits": ["ca5f1bc"],
+        "source_commits": ["ca5f1bc", "0dbeb05", "bf8cb9d", "5c94e8c"],
         "add_only": True,
     },
     "engines": [
@@ -26,5 +26,25 @@ LEVELS = {
         "technique": "Lean 4 proof by structural induction (refinement of the trie to the set of inserted words) + differential correspondence run",
     },
 }
+LEVELS.update({
+    "C17": {
+        "text": "Kernel-checked theorems for every name and every configuration about a Lean model of sanitizeFileName: under restricted IO an accepted request names b++'.gr' with b over [A-Za-z0-9_] (hence no '/', '\\', NUL or '..': a plain file of the current directory), '.gr' in empty-only mode and without argument; acceptance is an explicit decidable predicate of name and configuration. Expectation theorems (decide) on facts regenerated from the Go sources on every run: the file-system/process API call sites are exactly the 13 classified ones; exec/run are registered only under c.UnrestrictedIOs, save/load only under c.HasSave/c.HasLoad. The model is compared with the real function on ~200k (quick) / ~5M (thorough) names and with the real file-system effects of save/load in child processes per configuration.",
+        "design_ref": "DESIGN.md section 7, C17",
+        "note": _TB + "The fact extractor is syntactic (go/ast): file APIs reached through function values, methods or dependencies are not seen. Host-chosen paths (script on the command line, pprof flags, wasm dev server) are classified out of scope.",
+        "technique": "Lean 4 proofs (direct, list lemmas) + decide on regenerated source facts + exhaustive differential run incl. real file system",
+    },
+    "C18": {
+        "text": "Kernel-checked theorems about a protocol model of repl.AutoSave over an abstract file system, for every old content incl. no file, every new state, every crash index with any in-flight fragment, every failing step with any kept prefix: afterwards .gr holds the complete old or the complete new version; an error return leaves the old one; a normal return installed the new one (or the save was skipped and touched nothing); no other file changes. The order of the calls in AutoSave and the writes of SaveGlobals are regenerated facts with expectation theorems. A real child process is killed at every crash point / has every write fail for states of 0-50 bindings (~350 quick / ~1300 thorough runs) and .gr, the temp file and a fresh auto-load are compared with the model.",
+        "design_ref": "DESIGN.md section 7, C18",
+        "note": _TB + "Assumed of the OS (not proved): rename(2) atomic and completed writes durable with respect to process death; power loss/fsync outside the property. Left-over temp files after a crash or a failed save are observed, not part of the property.",
+        "technique": "Lean 4 proof by induction on the step list + crash/fault injection through build-tag-guarded hooks in child processes",
+    },
+    "C09": {
+        "text": "Arithmetic and depth part only. Kernel-checked theorems (BitVec 64 with Go wrap-around, free memory universally quantified): when the guard passes for string*int, array*int, array+array, map+map or a range, the result has exactly the true unbounded-integer size and that size fits the budget (<=256 objects or 16*count below a non-negative free); the pre-fix computation is refuted by a kernel-evaluated witness. Depth counter: along any nesting of Eval calls the counter stays within 0..MaxDepth+1, a normal return restores it, the guard fires exactly at MaxDepth+1 and Reset restores 0. Compared with the real SizeOk and the real operators on 10^5 boundary-biased cases per run plus bounded child-process runs.",
+        "design_ref": "DESIGN.md section 7, C09",
+        "note": _TB + "Two overflow defects found and fixed (status fixed in known_findings.json). Wall-clock time after the deadline, peak RSS and Go stack use per frame are NOT covered by this check (measured elsewhere or not yet); 64-bit int only.",
+        "technique": "Lean 4 proofs (omega over BitVec.toNat/toInt; induction on the call tree) + differential run + bounded child processes",
+    },
+})
 
 NOT_APPLICABLE = {}
